@@ -100,7 +100,10 @@ pub fn find_close_names_in<'a, Iter: IntoIterator<Item=&'a str>>(target_name: &'
     for possible_name in possible_names {
         debug!("> {:?}", possible_name);
         if target_name.eq_ignore_ascii_case(possible_name) {
-            result = Some(String::from(possible_name));
+            // the candidates come in the iteration order of a hash table: of several, always suggest the smallest
+            if result.as_ref().map_or(true, |r: &String| possible_name < r.as_str()) {
+                result = Some(String::from(possible_name));
+            }
         }
     }
     return result;
